@@ -191,7 +191,7 @@ Print Assumptions C19_K_complete_sound.
 
 Theorem C19_K_query_sound :
   forall q r,
-    check_case (CQuery q r) = [] -> utf8_all q = true -> forallb plain q = true ->
+    check_case (CQuery q r) = [] -> forallb plain q = true ->
     exists es el, r = ROk (es, el, q).
 Proof. exact K_query_sound. Qed.
 Print Assumptions C19_K_query_sound.
